@@ -60,6 +60,7 @@ inline bool parse_scenario(const std::string& line, scenario& sc) {
     if (eq == std::string::npos)
       continue;
     std::string k = tok.substr(0, eq), v = tok.substr(eq + 1);
+    sc.kv[k] = v;
     if (k == "dic") sc.destroy_in_completion = v == "1";
     else if (k == "fsc") sc.free_src_at_completion = v == "1";
     else if (k == "lv") sc.lvalue = v == "1";
